@@ -22,7 +22,7 @@ func init() {
 		Assumptions: []string{"failed-but-applied writes and AWS eventual consistency are not decided"}})
 	register(&propSpec{ID: "C08", Run: checkC08,
 		Explanation: "The taint loop walks a complete copy of the untainted list (one bundle per element, unconditional), sorted by a Less that reduces to CreationTimestamp(i).Before(CreationTimestamp(j)) before the loop starts, in index order, tainting the current element's node, leaving only by exhaustion or when n writes succeeded, and continuing after a failed write.",
-		RuleText:    "R1 comparator, R2 complete copy, R3 sort dominates loop, R4 in-order / skip only on failure, R5 node passed is the current element's",
+		RuleText:    "R1 comparator, R2 complete copy, R3 sort dominates loop, R4 in-order / skip only on failure, R5 node passed is the current element's; the classifier withholds no untainted node from the candidates (classification completeness)",
 		Assumptions: []string{"sort.Sort sorts; tie order is irrelevant to the statement (\"strictly older\")"}})
 }
 
